@@ -35,7 +35,7 @@ ASSUMPTIONS = [
 ]
 
 # committed snapshot of what plot/utils.py:hist2d looks like (used only when the pattern is not found)
-SNAPSHOT = {"rule": "trunc", "disc": "sharedRMW"}
+SNAPSHOT = {"rule": "floor", "disc": "serial"}
 NEAR_TIE = Fraction(1, 10 ** 9)
 UTILS = os.path.join(env.REPO, "src", "osyris", "plot", "utils.py")
 
